@@ -76,4 +76,8 @@ const (
 	dgTemplate = 1 // template only: decodes, nothing to publish
 	dgGarbage  = 2 // wrong version: does not decode
 	dgKinds    = 3
+	// template-based protocols only: template + one data record + a set for a template nobody
+	// announced: decoding reports a (non-fatal) error AND yields the record, which is published
+	dgPartial   = 3
+	dgKindsTmpl = 4
 )
